@@ -76,3 +76,21 @@ impl Rng {
         self.below(den) < num
     }
 }
+
+/// order-preserving parallel map over a slice with plain threads
+pub fn par_map<T: Sync, R: Send>(items: &[T], threads: usize, f: impl Fn(&T) -> R + Sync) -> Vec<R> {
+    let n = items.len();
+    let threads = threads.max(1).min(n.max(1));
+    let chunk = n.div_ceil(threads).max(1);
+    let mut out: Vec<Vec<R>> = vec![];
+    std::thread::scope(|s| {
+        let handles: Vec<_> = items.chunks(chunk).map(|c| {
+            let f = &f;
+            std::thread::Builder::new().stack_size(256 << 20).spawn_scoped(s, move || c.iter().map(f).collect::<Vec<R>>()).unwrap()
+        }).collect();
+        for h in handles {
+            out.push(h.join().unwrap());
+        }
+    });
+    out.into_iter().flatten().collect()
+}
